@@ -93,8 +93,34 @@ func (s *Sim) finishStopped() {
 	default:
 		s.violate("C20", "c", "no-cause", "%s: the gateway has stopped but its stop channel reports nothing", st.kind)
 	}
-	// C20.a: every client socket that was open has been closed
+	// C20.a: every client socket that was open has been closed (a client that
+	// had stopped reading reads on now, and must find the end of the stream)
+	for _, c := range s.Clients {
+		c.resume()
+	}
 	s.settle()
+	s.settle()
+	for _, c := range s.Clients {
+		c.mu.Lock()
+		stt := c.State
+		c.mu.Unlock()
+		listed := false
+		for _, o := range st.open {
+			if o == c {
+				listed = true
+			}
+		}
+		if stt == "open" && !listed && !c.eofSeen() {
+			// a connection that was being set up when the fault struck
+			s.stat("oracle.C20.a", 1)
+			s.violate("C20", "a", "client-admitted-after-stop", "%s at step %d: client %s, whose connection was being set up, holds an open WebSocket after the gateway stopped", st.kind, st.step, c.Name)
+		}
+	}
+	for _, h := range s.HTTP {
+		if !h.Done {
+			s.violate("C20", "d", "http-hang-after-stop", "%s at step %d: HTTP request %s %s, in progress when the fault struck, never got a response", st.kind, st.step, h.Method, h.Path)
+		}
+	}
 	for _, c := range st.open {
 		s.stat("oracle.C20.a", 1)
 		if !c.eofSeen() {
@@ -142,7 +168,16 @@ func (s *Sim) awaitStop(done chan struct{}, budget time.Duration) bool {
 		default:
 		}
 		if ps := s.sortedParked(); len(ps) > 0 {
-			s.release(ps[0])
+			// fair, but in an order drawn afresh (from the run seed and the step of
+			// the fault, so that a replay makes the same choices)
+			if s.stopRng == nil {
+				step := 0
+				if s.stop != nil {
+					step = s.stop.step
+				}
+				s.stopRng = rand.New(rand.NewPCG(s.Cfg.Seed^0x9E3779B97F4A7C15, uint64(step)+uint64(len(s.Trace))<<20))
+			}
+			s.release(ps[s.stopRng.IntN(len(ps))])
 			continue
 		}
 		// late answers may still be on their way: they are absorbed
@@ -294,6 +329,14 @@ func init() {
 			p.Faults["mqloss"] = true
 		}
 		p.W["fault"] = 0.25
+		if r.IntN(3) == 0 {
+			p.Faults["stall_client"] = true
+		}
+		if r.IntN(3) == 0 {
+			// scheduling points before lock acquisitions (rewriter rule R8)
+			p.Faults["lockyield"] = true
+			p.MaxSteps *= 3
+		}
 		p.Strict = true
 		s.Cfg.Gw.NoUnsubscribeDelay = r.IntN(4) == 0
 		s.Cfg.Gw.ReferenceThrottle = rpick(r, []int{0, 0, 1, 3})
